@@ -150,7 +150,7 @@ func (ts Tokens) MakeIndices() (Indices, error) {
 func (ts Tokens) Kind() IndexKind {
 
 	// It's only atoms of length one (so character password)
-	if ts.isAllAtoms() && ts.maxTokenLen() == 1 {
+	if ts.isAllAtoms() && ts.maxTokenLen() == 1 && ts.minTokenLen() == 1 {
 		return CharacterIndexKind
 	}
 
@@ -306,6 +306,17 @@ func (ts Tokens) maxTokenLen() int {
 		}
 	}
 	return max
+}
+
+func (ts Tokens) minTokenLen() int {
+	min := math.MaxInt32
+	for _, t := range ts {
+		l := utf8.RuneCountInString(t.Value())
+		if l < min {
+			min = l
+		}
+	}
+	return min
 }
 
 // isAllAtoms returns true when all of tokens are Atoms.
